@@ -11,6 +11,7 @@ import (
 	"github.com/256dpi/lungo/mongokit"
 	"go.mongodb.org/mongo-driver/bson"
 	"go.mongodb.org/mongo-driver/bson/primitive"
+	"go.mongodb.org/mongo-driver/mongo"
 	"go.mongodb.org/mongo-driver/mongo/options"
 
 	"verifharness/fw"
@@ -30,7 +31,7 @@ func init() {
 		Assumptions: []string{"ref.Apply implements DESIGN.md 8.3 (MongoDB update semantics incl. numeric promotion) and is trusted inside its domain", "the order among fields newly created by one update is not asserted"},
 		Batches:     func(tier string) int { return 16 },
 		Require: func(tier string) map[string]int64 {
-			return map[string]int64{"ref_asserted": 2000, "accepted_and_changed": 1000, "rejected_by_both": 100, "idempotence_checked": 300, "driver_compared": 500}
+			return map[string]int64{"ref_asserted": 2000, "accepted_and_changed": 1000, "rejected_by_both": 100, "idempotence_checked": 300, "driver_compared": 500, "second_applications_through_the_driver": 200, "bulk_neighbours_without_filters": 20}
 		},
 		Run: runC11,
 	})
@@ -343,9 +344,37 @@ func c11Case(c *fw.Ctx, coll lungo.ICollection, ctx context.Context, d bson.D, u
 				c.Violate("apply:modified-count", fmt.Sprintf("UpdateOne reported matched=%d modified=%d, expected matched=1 modified=%d (document %s)", res.MatchedCount, res.ModifiedCount, wantMod, map[bool]string{true: "changed", false: "identical"}[changed]), w)
 			}
 			if gen.OnlyIdempotent(u.Doc) {
-				res2, err2 := coll.UpdateOne(ctx, bson.D{{Key: "_id", Value: int32(1)}}, u.Doc, opts)
-				if err2 == nil && res2.ModifiedCount != 0 {
-					c.Violate("apply:second-modified-count", "second application of an idempotent update reported ModifiedCount != 0", w)
+				// the second application goes through the upsert path as well: the
+				// document matches, so nothing may be inserted
+				opts2 := options.Update().SetUpsert(idx%8 == 0)
+				if len(u.ArrayFilters) > 0 {
+					opts2.SetArrayFilters(options.ArrayFilters{Filters: u.FiltersAsInterfaces()})
+				}
+				res2, err2 := coll.UpdateOne(ctx, bson.D{{Key: "_id", Value: int32(1)}}, u.Doc, opts2)
+				c.Count("second_applications_through_the_driver", 1)
+				if err2 == nil && (res2.ModifiedCount != 0 || res2.UpsertedCount != 0 || res2.MatchedCount != 1) {
+					w["second_result"] = fmt.Sprintf("matched=%d modified=%d upserted=%d", res2.MatchedCount, res2.ModifiedCount, res2.UpsertedCount)
+					c.Violate("apply:second-modified-count", "second application of an idempotent update (upsert option set in every other case) did not report matched=1 modified=0 upserted=0", w)
+				} else if err2 != nil && !strings.Contains(gen.JSON(u.Doc), ".$[") {
+					w["second_error"] = err2.Error()
+					c.Violate("apply:idempotence-error", "second application of an idempotent update through UpdateOne is rejected although the first was accepted: "+err2.Error(), w)
+				}
+				if n, _ := coll.CountDocuments(ctx, bson.D{}); n != 1 {
+					c.Violate("apply:second-application-inserted", fmt.Sprintf("after the second application the collection holds %d documents", n), w)
+				}
+			}
+			// array filters belong to their own update: the same update without
+			// them, as the neighbour of the one that brings them in a bulk write,
+			// must be rejected on its own
+			if len(u.ArrayFilters) > 0 && strings.Contains(gen.JSON(u.Doc), ".$[") {
+				if _, rerr := ref.Apply(got, u.Doc, nil, false, &ref.ApplyInfo{}); rerr != nil {
+					m1 := mongo.NewUpdateOneModel().SetFilter(bson.D{{Key: "_id", Value: int32(1)}}).SetUpdate(u.Doc).SetArrayFilters(options.ArrayFilters{Filters: u.FiltersAsInterfaces()})
+					m2 := mongo.NewUpdateOneModel().SetFilter(bson.D{{Key: "_id", Value: int32(1)}}).SetUpdate(u.Doc)
+					_, berr := coll.BulkWrite(ctx, []mongo.WriteModel{m1, m2})
+					c.Count("bulk_neighbours_without_filters", 1)
+					if berr == nil {
+						c.Violate("apply:neighbour-filters-used", "an update with identified positional operators and no array filters was accepted as the second model of a bulk write whose first model brought array filters", w)
+					}
 				}
 			}
 		}
